@@ -169,6 +169,26 @@ func c05Moment(w *W, st ref.Stamp, class string) {
 	idx("dayExact", l.GetDayGanIndexExact(), l.GetDayZhiIndexExact(), l.GetDayGanExact(), l.GetDayZhiExact(), rp.day[1])
 	idx("dayExact2", l.GetDayGanIndexExact2(), l.GetDayZhiIndexExact2(), l.GetDayGanExact2(), l.GetDayZhiExact2(), rp.day[2])
 	idx("time", l.GetTimeGanIndex(), l.GetTimeZhiIndex(), l.GetTimeGan(), l.GetTimeZhi(), rp.hour)
+	// the hour object(s) of the same moment (and, at 23:xx / every 4th moment, the day's 13 hour objects)
+	if st.H == 23 || st.H == 0 || (st.Mi+st.S+st.D)%4 == 0 {
+		lt := l.GetTime()
+		cmp("hour", "LunarTime.GetGanZhi", lt.GetGanZhi(), rp.hour)
+		idx("LunarTime", lt.GetGanIndex(), lt.GetZhiIndex(), lt.GetGan(), lt.GetZhi(), rp.hour)
+		ts := l.GetTimes()
+		if len(ts) != 13 {
+			w.Violatef("hour", key+"/GetTimes", "GetTimes() has %d entries", len(ts))
+		} else {
+			for k, t := range ts {
+				hb := k % 12
+				dayStem := rp.day[0] % 10
+				if k == 12 {
+					dayStem = (dayStem + 1) % 10 // 23:00 belongs to the next day's rat hour
+				}
+				want := ref.PairFrom((ref.RatHourStem(dayStem)+hb)%10, hb)
+				cmp("hour", fmt.Sprintf("GetTimes()[%d].GetGanZhi", k), t.GetGanZhi(), want)
+			}
+		}
+	}
 	// eight characters under both sects (fresh object per sect: SetSect mutates the shared chart)
 	for sect := 1; sect <= 2; sect++ {
 		ec := solarOf(st).GetLunar().GetEightChar()
@@ -206,6 +226,7 @@ func c05Moment(w *W, st ref.Stamp, class string) {
 func c05Run(w *W, c Case) {
 	y := c.A[0]
 	w.Class(fmt.Sprintf("century%02d", y/100))
+	historyTouch(w, y)
 	by := isBoundaryYear(y)
 	base := calendar.NewSolarFromYmd(y, 6, 15).GetLunar()
 	tbl := base.GetJieQiTable()
